@@ -263,6 +263,30 @@ def run(ctx):
                         res.violation(key, "browsing into the archive differs from browsing the extracted tree",
                                       {"members": members, "path": q, "protocol": p, "gplus": gp}, observed=nb[:300], required=na[:300],
                                       replay={"members": [(n, kk, d.decode("latin-1")) for n, kk, d in members], "path": q, "protocol": p, "gplus": gp})
+            # ---- history: the archive is replaced by another one with the same time stamp (cp -p, rsync -t, a rebuild within the
+            # same second); one server process throughout.  The next request sees the new archive.
+            if ai < ctx.n(6, 40):
+                gone = next((n for n, k, d_ in members if k == "F" and "/" not in n and not n.endswith(".abstract")), None)
+                before = os.stat(zpath)
+                pyg.request(reqs.build("gopher", "/XTREEX.zip"), cfg, reset=False)
+                new_members = [m for m in members if m[0] != gone and m[1] != "L"] + [("fresh-member.txt", "F", b"only in the second archive\n")]
+                os.unlink(zpath)
+                write_zip(zpath, new_members, False)
+                os.utime(zpath, ns=(before.st_atime_ns, before.st_mtime_ns))
+                r_new = pyg.request(reqs.build("gopher", "/XTREEX.zip/fresh-member.txt"), cfg, reset=False)
+                r_top = pyg.request(reqs.build("gopher", "/XTREEX.zip"), cfg, reset=False)
+                res.evaluations += 2
+                rp_ = {"members": [(n, kk, d_.decode("latin-1")) for n, kk, d_ in members], "path": "fresh-member.txt", "protocol": "gopher", "gplus": "+", "replaced": True}
+                if r_new.out != b"only in the second archive\n" or b"/XTREEX.zip/fresh-member.txt\t" not in (r_top.out or b""):
+                    res.violation("C16:replaced-archive-stale", "after the archive was replaced (same time stamp) the server does not serve the new archive's member",
+                                  {"members_before": members, "added": "fresh-member.txt"}, observed={"member": (r_new.out or b"")[:120], "listing": (r_top.out or b"")[:200]},
+                                  required="the new member's bytes, and a listing that has it", replay=rp_)
+                if gone is not None:
+                    r_old = pyg.request(reqs.build("gopher", "/XTREEX.zip/" + gone), cfg, reset=False)
+                    res.evaluations += 1
+                    if reqs.classify("gopher", r_old.out)[0] != "notfound":
+                        res.violation("C16:replaced-archive-stale", "after the archive was replaced (same time stamp) the server still serves a member of the old archive",
+                                      {"members_before": members, "removed": gone}, observed=(r_old.out or b"")[:120], required="not found", replay=rp_)
         finally:
             tree.close()
     # real-file-only handlers never act on members
